@@ -102,6 +102,22 @@ for _d in ('DN', 'DL', 'DNN', 'TDNN'):
                  ('dynamic-in-limited-array', 'struct B { u8 a; %s x<2>; };' % _d),
                  ('dynamic-in-optional', 'struct B { %s* x; };' % _d),
                  ('dynamic-in-union-arm', 'union B { 1: u8 a; 2: %s x; };' % _d)]
+# legal but unusual schema texts (nothing in docs/schema.rst forbids them); (tag, text)
+ODDITIES = [
+    ('duplicate-enumerator-values', 'enum E { E_A = 1, E_B = 1, E_C = 2 };\nstruct S { E e; E f[2]; };'),
+    ('enumerators-from-enumerators', 'const A = 2;\nenum E { E_A = A, E_B = E_A + 1 };\nstruct S { E e[E_B]; u8 x[A]; };'),
+    ('zero-enumerator-and-discriminator', 'enum E { E_Z = 0 };\nunion U { 0: E e; };\nstruct S { U u[2]; E* o; };'),
+    ('typedef-chain-sizer', 'typedef u8 T1;\ntypedef T1 T2;\ntypedef T2 T3;\ntypedef T3 T4;\nstruct S { T4 n; T4 x<@n>; };'),
+    ('single-member-kinds', 'struct A { u8* o; };\nstruct B { bytes b<>; };\nstruct C { u64 x<...>; };\nunion U { 7: u8 a; };'),
+    ('same-values-in-two-enums', 'enum E1 { X1 = 1 };\nenum E2 { X2 = 1 };\nunion U { X1: E1 a; 2: E2 b; };'),
+    ('max-values', 'enum E { E_MAX = 0xFFFFFFFF, E_MIN = 0 };\nconst BIG = 0xFFFFFFFFFFFFFFFF;\nstruct S { E e; };'),
+    ('typedef-of-everything', 'struct F { u8 a; };\nunion U { 1: u8 a; };\nenum E { E_A = 1 };\ntypedef F TF;\ntypedef U TU;\n'
+                              'typedef E TE;\ntypedef TF TTF;\nstruct S { TTF f[2]; TU u; TE e; TF* o; TTF d<>; };'),
+    ('long-names', 'struct %s { u8 %s; };' % ('S' + 'x' * 200, 'f' + 'y' * 200)),
+    ('digits-and-underscores', 'struct S1_ { u8 a_1; u8 b__; };\nstruct S { S1_ s_; };'),
+    ('comments-everywhere', '/* a */ struct /* b */ S /* c */ { // d\n u8 /* e */ a /* f */ ; /* g */ } /* h */ ; // i'),
+    ('hex-octal-sizes', 'struct S { u8 a[0x3]; u8 b[010]; u8 c<0x2>; };'),
+]
 DIAG_RE = re.compile(r'sch\.prophy:(\d+):(\d+): error: .+')
 
 
@@ -116,6 +132,7 @@ def shards(ctx):
         sp['kind2'] = sp['kind']
         sp['kind'] = 'valid-seq'
         specs.append(sp)
+    specs.append({'kind': 'valid-text', 'seed': ctx.seed * 1000 + 90})
     # (ii) rule breakers
     nb = ctx.pick(4, 16)
     for i in range(nb):
@@ -231,6 +248,21 @@ def run_valid(acc, wd, idx, sch, names, tags):
     acc.violation(PROP, mech, {'schema': text[:6000], 'backends': res, 'tags': tags})
 
 
+def run_valid_text(acc, wd, idx, tag, text):
+    res = backends(acc, wd, idx, text)
+    acc.ev()
+    acc.count('valid_schemas')
+    acc.count('legal_oddities')
+    acc.sig(('valid-text', tag))
+    bad = [(k, v) for k, v in res.items() if v not in ('ok', 'not-required')]
+    if not bad:
+        acc.count('valid_schemas_usable_everywhere')
+        return
+    k, v = bad[0]
+    mech = 'valid-schema-rejected-by-prophyc' if k == 'prophyc' else 'accepted-but-unusable:' + classify_backend_error(k, v)
+    acc.violation(PROP, mech + ':' + tag, {'schema': text, 'backends': res, 'tags': [tag]})
+
+
 def run_breaker(acc, wd, idx, cls, body, prelude_sch, rng):
     text = (prelude_sch.to_prophy() if prelude_sch is not None else '') + PRELUDE + body + '\n'
     d = os.path.join(wd, 'r%d' % idx)
@@ -288,6 +320,9 @@ def run_shard(spec):
                 sch = S.random_schema(random.Random(spec['seed'] * 100 + k), cpp_full=(k % 2 == 0))
                 names = [d.name for d in sch.composites()]
                 run_valid(acc, wd, k, sch, names, 'rand')
+        elif spec['kind'] == 'valid-text':
+            for k, (tag, text) in enumerate(ODDITIES):
+                run_valid_text(acc, wd, 500 + k, tag, text + '\n')
         elif spec['kind'] == 'valid-seq':
             sp = dict(spec)
             sp['kind'] = spec['kind2']
